@@ -232,6 +232,26 @@ IOC_ASSUME = [
 ]
 
 
+def oracle_selftest(rep):
+    """The oracle must accept / reject three fixed traces (specs/ioc/selftest): a plain sequential history, a
+    hypothetical implementation that reports a cross-thread cycle by a panic (must be accepted: the strict spec
+    must not depend on the open finding), and a cycle panic without any cycle (must be rejected)."""
+    d = os.path.join(SD, "selftest")
+    acc = []
+    for f in ("accept_basic_sequential.ndjson", "accept_cross_thread_cycle_reported_by_panic.ndjson"):
+        acc += [l.rstrip("\n") for l in open(os.path.join(d, f)) if l.strip()]
+    rej = [l.rstrip("\n") for l in open(os.path.join(d, "reject_spurious_cycle_panic.ndjson")) if l.strip()]
+    with cf.ThreadPoolExecutor(max_workers=2) as ex:
+        a = ex.submit(C._validate_batch, SD, "IocTrace", "IocTrace.cfg", acc, "sa%d" % os.getpid())
+        b = ex.submit(C._validate_batch, SD, "IocTrace", "IocTrace.cfg", rej, "sr%d" % os.getpid())
+        (ok_a, at_a, _), (ok_b, at_b, _) = a.result(), b.result()
+    if not ok_a:
+        raise C.ToolError("IocTrace self-test: a conforming trace was rejected at record %s" % at_a)
+    if ok_b:
+        raise C.ToolError("IocTrace self-test: a cycle panic without a cycle was accepted")
+    rep.extra["oracle_selftest"] = {"accepted": 2, "rejected": 1, "rejected_at_record": at_b}
+
+
 def is_stress_first(h):
     return '"scenario":"first"' in h[0] and '"threads":4' in h[0]
 
@@ -244,30 +264,35 @@ def C18(rep):
     for cfg in (["MC_IocA_quick.cfg", "MC_IocA_cyc_quick.cfg"] if quick else ["MC_IocA.cfg", "MC_IocA_cyc.cfg"]):
         P.add_mc(rep, P.mc_cached(AREA, "MC_IocA", cfg, DEPS, workers=6, timeout=1500))
     # 2. spec -> code -> spec: TLC-enumerated programs on the three container flavours
-    sets = (["keys3", "trait4", "deps3"] if quick else ["keys5", "trait7", "deps4"])
+    sets = (["keys3", "trait4", "deps3"] if quick else ["keys4", "trait5", "deps4"])
     files = [gen_programs(rep, "MC_IocA_gen_%s.cfg" % s)[0] for s in sets]
-    ioc_seq(rep, pool, "inst", "ioc-seq-inst", programs_files=files, want=lambda h: len(h) > 12)
-    ioc_seq(rep, pool, "local", "ioc-seq-local", programs_files=files, seed_off=1, stride=n(rep.tier, 3, 2), offset=rep.seed % 2)
-    ioc_seq(rep, pool, "global", "ioc-seq-global", programs_files=files, stride=n(rep.tier, 29, 97), offset=rep.seed % 7, seed_off=2)
+    if quick:
+        ioc_seq(rep, pool, "inst", "ioc-seq-inst", programs_files=files, want=lambda h: len(h) > 12)
+    else:
+        ioc_seq(rep, pool, "inst", "ioc-seq-inst", programs_files=files[:2], want=lambda h: len(h) > 12)
+        ioc_seq(rep, pool, "inst", "ioc-seq-inst-deps", programs_files=files[2:], stride=3, offset=rep.seed % 3)
+    ioc_seq(rep, pool, "local", "ioc-seq-local", programs_files=files, seed_off=1, stride=n(rep.tier, 3, 6), offset=rep.seed % 3)
+    ioc_seq(rep, pool, "global", "ioc-seq-global", programs_files=files, stride=n(rep.tier, 29, 197), offset=rep.seed % 7, seed_off=2)
     # two containers: enumerated cross-container dependencies (open finding FIOC2 lives here)
     c2 = gen_programs(rep, "MC_IocA_gen_%s.cfg" % ("c2_3" if quick else "c2_4"))[0]
-    ioc_seq(rep, pool, "inst", "ioc-seq-2c-inst", programs_files=[c2], seed_off=3, expect_known=True, stride=n(rep.tier, 6, 2),
+    ioc_seq(rep, pool, "inst", "ioc-seq-2c-inst", programs_files=[c2], seed_off=3, expect_known=True, stride=n(rep.tier, 6, 8),
             offset=rep.seed % 2)
-    ioc_seq(rep, pool, "local", "ioc-seq-2c-local", programs_files=[c2], seed_off=4, expect_known=True, stride=n(rep.tier, 12, 4),
+    ioc_seq(rep, pool, "local", "ioc-seq-2c-local", programs_files=[c2], seed_off=4, expect_known=True, stride=n(rep.tier, 12, 16),
             offset=rep.seed % 4)
-    ioc_seq(rep, pool, "global", "ioc-seq-2c-global", programs_files=[c2], seed_off=5, expect_known=True, stride=n(rep.tier, 81, 31))
+    ioc_seq(rep, pool, "global", "ioc-seq-2c-global", programs_files=[c2], seed_off=5, expect_known=True, stride=n(rep.tier, 81, 97))
     # 3. long seeded random programs over the full alphabet (names incl. "", two dependencies, two containers, all API forms)
-    ioc_seq(rep, pool, "inst", "ioc-rand-inst", random=n(rep.tier, 100, 3000), ops=30, seed_off=10, expect_known=True)
-    ioc_seq(rep, pool, "local", "ioc-rand-local", random=n(rep.tier, 60, 2000), ops=30, seed_off=11, expect_known=True)
-    ioc_seq(rep, pool, "global", "ioc-rand-global", random=n(rep.tier, 24, 400), ops=30, seed_off=12, expect_known=True)
+    ioc_seq(rep, pool, "inst", "ioc-rand-inst", random=n(rep.tier, 100, 600), ops=30, seed_off=10, expect_known=True)
+    ioc_seq(rep, pool, "local", "ioc-rand-local", random=n(rep.tier, 60, 400), ops=30, seed_off=11, expect_known=True)
+    ioc_seq(rep, pool, "global", "ioc-rand-global", random=n(rep.tier, 24, 100), ops=30, seed_off=12, expect_known=True)
     # 4. concurrency: free-running threads, first resolution / re-registration / transient
-    ioc_stress(rep, pool, "inst", "ioc-stress-inst", n(rep.tier, 150, 2400), "2,4,8", "first,rereg,transient", seed_off=20,
+    ioc_stress(rep, pool, "inst", "ioc-stress-inst", n(rep.tier, 150, 900), "2,4,8", "first,rereg,transient", seed_off=20,
                want=is_stress_first)
-    ioc_stress(rep, pool, "global", "ioc-stress-global", n(rep.tier, 48, 600), "2,4,8", "first,rereg,transient", seed_off=21)
+    ioc_stress(rep, pool, "global", "ioc-stress-global", n(rep.tier, 48, 240), "2,4,8", "first,rereg,transient", seed_off=21)
     #    a dependency cycle spread over threads (open finding FIOC1 lives here)
-    ioc_stress(rep, pool, "inst", "ioc-stress-cycle", n(rep.tier, 6, 40), "2,3,8", "cycle", seed_off=22, expect_known=True,
+    ioc_stress(rep, pool, "inst", "ioc-stress-cycle", n(rep.tier, 6, 24), "2,3,8", "cycle", seed_off=22, expect_known=True,
                want=lambda h: '"hung"' in h[-2])
     # 5. the verdict: every history through IocTrace
+    oracle_selftest(rep)
     validate_strict(rep, pool.strict)
     validate_expecting_known(rep, pool.known)
     rep.assumptions += IOC_ASSUME
